@@ -13,6 +13,7 @@ TRUSTED_NUMERIC = [
     'every denominator is assumed non-zero and every sqrt argument non-negative (admissibility preconditions; paths violating them are excluded)',
     'extractor rule table of vf/xtract.py (DESIGN.md 3.1): x/y == x*inv(y), members of one object == globals, pow(b,n)==repeated product for integer n',
     'C++ semantics not re-verified: template instantiation gives the same body for both scalar types; pi == PI == acos(-1)',
+    'function-local statics (rule SL): an initialiser that mentions no argument, local, member function or mutable member is treated as an ordinary local; any other static is process-wide state whose value on entry is arbitrary (over-approximates "initialised in the state of the first call"); adjacent literal factors are multiplied exactly (rule Lf)',
     'CBMC 6.11 (goto-cc, DFCC contract instrumentation) and the SMT solver that answered (cvc5 1.0 / z3 5.1 / z3 4.8.12)',
 ]
 
